@@ -64,7 +64,7 @@ impl Clone for Vehicle {
                 }
             }
         }
-//@before "new_formation.push(new)"
+//@after "let pos"
         assert(self.formation@[pos as int].idx == old);
 //@before "Ok(TrainFormation"
         assert(new_formation@ =~= self.formation@.update(pos as int, new));
@@ -91,7 +91,7 @@ impl Clone for Vehicle {
                 }
             }
         }
-//@before "new_formation.remove(pos)"
+//@after "let pos"
         assert(self.formation@[pos as int].idx == vehicle);
 //@before "Ok(TrainFormation"
         assert(new_formation@ =~= self.formation@.remove(pos as int));
